@@ -236,12 +236,14 @@ def validate_response(vm):
     if len(transport.written) != 1:
         return 'VIOLATION: the request was not written exactly once'
     acceptable = price == 1 and kind == 2 and (known_length is None or announced == known_length)
-    if acceptable and writer_ok and avail == 2:
+    if acceptable and writer_ok and avail in (1, 2):
+        # both are answers of an honest server: it lists the blob only if it is in its completed index, but serves every verified blob
+        # (a verified blob outside the index is announced with an empty availability list)
         if proto is not p or transport.closed:
             return 'VIOLATION: a valid response and transfer end with the connection closed'
         return 'ok-downloaded'
     if acceptable and writer_ok and proto is p and not transport.closed:
-        return 'ok-downloaded-lenient'       # the right blob is announced; the availability part is empty / inconsistent (not required to refuse)
+        return 'ok-downloaded-lenient'       # the right blob is announced; the availability part lists other blobs (a lying server; not required to refuse)
     if proto is not None:
         return 'VIOLATION: the connection is handed back although the response or the transfer was not acceptable'
     if not transport.closed:
@@ -366,6 +368,95 @@ def serve(vm, cuts):
     return 'ok-not-held'
 
 
+class Hang(Exception):
+    """An await that can never complete (an event nobody will set while the peer is silent)."""
+
+
+class ModelEvent:
+    def __init__(self):
+        self.flag = False
+
+    def set(self):
+        self.flag = True
+
+    def clear(self):
+        self.flag = False
+
+    def is_set(self):
+        return self.flag
+
+    def wait(self):
+        return EventWait(self)
+
+
+class EventWait:
+    """Awaiting it returns at once if the event is set; otherwise it times out (under wait_for) or never returns."""
+
+    def __init__(self, event):
+        self.event = event
+        self.under_timeout = False
+
+    def outcome(self):
+        import asyncio
+        if self.event.flag:
+            return True
+        if self.under_timeout:
+            raise asyncio.TimeoutError()
+        raise Hang()
+
+    def __vm_await__(self, vm):
+        return self.outcome()
+
+    def __await__(self):
+        return self
+
+    def __iter__(self):
+        return self
+
+    def __next__(self):
+        raise StopIteration(self.outcome())
+
+
+def idle(vm, n_requests):
+    """One to two complete requests on one connection (each for a blob the server holds verified or not, with any sendfile result), then the
+    peer falls silent: the real idle guard (close_on_idle, with a silent peer every wait_for on an unset event times out and a bare wait on an
+    unset event never returns) must close the connection - unless a failed send closed it already."""
+    from lbry.blob_exchange.serialization import BlobRequest
+    log = []
+    blobs = {}
+    order = []
+    for i, h in enumerate((BLOB_HASH, OTHER_HASH)[:n_requests]):
+        blobs[h] = ServedBlob(h, vm.new_bool('blob_is_verified'), 1000, vm.new_int('sendfile_result', -1, 1000), log)
+        order.append(h)
+    p = make_server(vm, blobs, set())
+    p.started_transfer, p.transfer_finished = ModelEvent(), ModelEvent()
+    wake_between = n_requests > 1 and vm.new_bool('idle_guard_runs_between_the_requests')
+    for i, h in enumerate(order):
+        try:
+            p.data_received(BlobRequest.make_request_for_blob_hash(h).serialize())
+        except Exception as e:
+            return 'VIOLATION: the server raised %s on an honest request' % type(e).__name__
+        LOOP[0].drain()
+        if p.transport.closed:
+            return 'ok-closed-by-failed-send'
+        if i == 0 and wake_between:
+            # the guard task gets to run while the second request is on its way: it sees the events of the first request
+            if p.started_transfer.is_set():
+                p.started_transfer.clear()
+                if not p.transfer_finished.is_set():
+                    return 'VIOLATION: a started transfer is never reported finished: the idle guard waits forever'
+                p.transfer_finished.clear()
+    try:
+        vm.await_(p.close_on_idle())
+    except Hang:
+        return 'VIOLATION: the idle guard waits for an event that nothing will set: a silent peer is never disconnected'
+    except Exception as e:
+        return 'VIOLATION: close_on_idle raised %s' % type(e).__name__
+    if not p.transport.closed:
+        return 'VIOLATION: the idle guard returned without closing the silent connection'
+    return 'ok-closed-idle'
+
+
 BAD_REQUESTS = [b'{]}', b'\xff\xfe}', b'{"a": 1}', b'{}', b'[1, 2]}', b'{"requested_blob": "x"}{"requested_blob": "y"}', b'}']
 
 
@@ -405,13 +496,21 @@ def refuse(vm):
 
 
 async def _wait_for(aw, timeout):
+    if isinstance(aw, EventWait):
+        aw.under_timeout = True
     return await aw
+
+
+def _m_wait_for(vm, a, k):
+    if isinstance(a[0], EventWait):
+        a[0].under_timeout = True
+    return a[0]          # no timeouts in the model: the awaited stub completes at once (or, for an unset event, times out)
 
 
 def sym_setup(vm, job):
     import asyncio
     vm.register_helper('same_bytes', lambda a, b: vm.truth(vm.eq(a, b)))
-    vm.models[id(asyncio.wait_for)] = lambda vm_, a, k: a[0]          # no timeouts in the model: the awaited stub completes at once
+    vm.models[id(asyncio.wait_for)] = _m_wait_for
 
 
 class _Native:
@@ -461,6 +560,10 @@ def jobs(tier):
                         bounds=dict(request='the real serialised client request', cuts=f'{cuts} at every position',
                                     blob='verified or not, in the completed set or not, length 1 / 12345 / 2 MiB, any sendfile result'),
                         must_reach=('ok-served', 'ok-not-held')))
+    for n in ((1, 2) if tier == 'quick' else (1, 2)):
+        out.append(dict(name=f'idle-after-{n}-requests', family='idle', fn='idle', args=(n,), loop_bound=400, max_depth=60, cost=50 * n,
+                        bounds=dict(requests=n, blobs='verified or not, any sendfile result', then='the peer is silent'),
+                        must_reach=('ok-closed-idle',)))
     out.append(dict(name='refuse-bad-requests', family='serve', fn='refuse', args=(), loop_bound=400, max_depth=60, cost=50,
                     bounds=dict(malformed='catalogue of %d byte strings' % len(BAD_REQUESTS), oversized='two fragments of 1..3000 bytes'),
                     must_reach=('ok-capped', 'ok-buffered', 'ok-closed')))
